@@ -85,13 +85,16 @@ class TaskCtx:
     def fail(self, name, why, kind="value", **meta):
         """an obligation that is refuted without a solver call (e.g. a required raising path is absent)"""
         meta["kind"] = kind
+        meta.pop("inputs", None)
         self.results.append(Result(name, "refuted", "structural", 0.0, detail=why, meta=meta).as_dict())
 
     def ok(self, name, kind="value", backend="structural", **meta):
         meta["kind"] = kind
+        meta.pop("inputs", None)
         self.results.append(Result(name, "proved", backend, 0.0, meta=meta).as_dict())
 
     def undecided(self, name, why, **meta):
+        meta.pop("inputs", None)
         self.results.append(Result(name, "unknown", "engine", 0.0, detail=why, meta=meta).as_dict())
 
     def cover(self, eng, name, hyps):
